@@ -82,6 +82,7 @@ Definition chk_all (g : zstate) : bool :=
   chk_comps g RConn cc && chk_comps g RConn wc && chk_comps g RStrong sc &&
   (* hypotheses of C10_connected_checked / C10_weak_checked *)
   (if directed (sp g) then wstep_ok_b zeqb g else step_ok_b zeqb g) &&
+  step_total_b zeqb g &&
   (* the SCC result does not depend on the neighbour iteration order *)
   match sc, sc' with
   | Ok a, Ok b => lists_eqb (canon_sets a) (canon_sets b)
